@@ -11,6 +11,7 @@ import (
 	"reflect"
 	"sort"
 	"strconv"
+	"strings"
 	"testing"
 	"time"
 
@@ -972,6 +973,7 @@ func playFile(events []fileEvent, m *module, lists [][]any) (string, bool) {
 		return nil
 	}
 	// two files prepared now (their modification time is older than anything written later) to be rotated in by events 10, 11
+	bigDone := false
 	prepared := map[int]bool{}
 	for k := 0; k < 2; k++ {
 		if err := os.WriteFile(path+fmt.Sprint(".prepared", k), m.encode(lists[1+k]), 0o644); err != nil {
@@ -979,8 +981,34 @@ func playFile(events []fileEvent, m *module, lists [][]any) (string, bool) {
 		}
 		prepared[k] = true
 	}
+	undecodable := false // the file's content has been made undecodable in place (event 8) and not been rewritten since
 	for i, ev := range events {
 		switch ev.kind {
+		case 12: // a big file (well over a megabyte): list A followed by thousands of copies of its first rule on resources of their own
+			base := m.encode(lists[1])
+			var elems []json.RawMessage
+			if json.Unmarshal(base, &elems) != nil || len(elems) == 0 || bigDone {
+				continue
+			}
+			var tmpl map[string]interface{}
+			if json.Unmarshal(elems[0], &tmpl) != nil || tmpl == nil {
+				continue
+			}
+			bigDone = true
+			for k := 0; k < 8000; k++ {
+				tmpl["resource"] = fmt.Sprintf("filler-%05d-%s", k, strings.Repeat("x", 100))
+				b, _ := json.Marshal(tmpl)
+				elems = append(elems, b)
+			}
+			payload, _ := json.Marshal(elems)
+			l, jerr := m.fromJSON(payload)
+			if jerr != nil {
+				continue
+			}
+			if err := os.WriteFile(path, payload, 0o644); err != nil {
+				return err.Error(), true
+			}
+			want = sortedKeys(m, l)
 		case 9: // the file is renamed away and the very same file is renamed back: the same content is in force again
 			if err := os.Rename(path, path+".away"); err != nil {
 				return err.Error(), true
@@ -988,7 +1016,10 @@ func playFile(events []fileEvent, m *module, lists [][]any) (string, bool) {
 			if err := os.Rename(path+".away", path); err != nil {
 				return err.Error(), true
 			}
-			time.Sleep(300 * time.Millisecond) // (the expected rules do not change: let the watcher see the rename before converging)
+			if undecodable { // the rename clears the rules, and what the file holds since the last event 8 cannot be decoded: nothing comes back
+				want = nil
+			}
+			time.Sleep(300 * time.Millisecond) // (the expected rules may not change: let the watcher see the rename before converging)
 		case 10, 11: // the file is renamed away and a file prepared earlier (older modification time) is rotated in
 			k := ev.kind - 10
 			if !prepared[k] || fmt.Sprint(sortedKeys(m, lists[1+k])) == fmt.Sprint(want) {
@@ -1032,6 +1063,7 @@ func playFile(events []fileEvent, m *module, lists [][]any) (string, bool) {
 			if err != nil {
 				return err.Error(), true
 			}
+			undecodable = true
 			time.Sleep(150 * time.Millisecond) // (nothing observable is expected to change: give the watcher time to react)
 		case 4, 5: // the file is renamed away and a new file is put in its place (list A / list B)
 			l := pick(ev.kind - 4)
@@ -1055,8 +1087,19 @@ func playFile(events []fileEvent, m *module, lists [][]any) (string, bool) {
 			}
 			want = sortedKeys(m, l)
 		}
+		if ev.kind != 8 && ev.kind != 9 {
+			undecodable = false // (every other event that was carried out rewrote, replaced or removed the content)
+		}
 		if !waitFor(func() bool { return fmt.Sprint(m.current()) == fmt.Sprint(want) }, 10*time.Second) {
-			return fmt.Sprintf("event %d (kind %d): rules in force %v, file content describes %v", i, ev.kind, m.current(), want), false
+			msg := fmt.Sprintf("event %d (kind %d): rules in force %v", i, ev.kind, m.current())
+			if len(msg) > 1500 {
+				msg = msg[:1500] + "..."
+			}
+			ws := fmt.Sprint(want)
+			if len(ws) > 1500 {
+				ws = ws[:1500] + fmt.Sprintf("... (%d rules)", len(want))
+			}
+			return msg + ", file content describes " + ws, false
 		}
 		if ev.kind == 3 {
 			break
@@ -1065,7 +1108,7 @@ func playFile(events []fileEvent, m *module, lists [][]any) (string, bool) {
 	return "", false
 }
 
-var eventKinds = []int{0, 1, 0, 1, 2, 3, 4, 5, 8, 8, 9, 10, 11}
+var eventKinds = []int{0, 1, 0, 1, 2, 3, 4, 5, 8, 8, 9, 10, 11, 12}
 
 func TestFileDatasource(t *testing.T) {
 	hx.Check(t, hx.N{Quick: 40, Thorough: 80}, func(t *rapid.T, c *hx.Case) {
